@@ -26,6 +26,13 @@ Lemma fwords_blk st i y mt mb pt pb bt bb h kids :
 Proof. unfold fwords_l. simpl. induction kids as [|k l IH]; simpl; [reflexivity|]. now rewrite IH. Qed.
 Lemma fwords_l_app a b : fwords_l (a ++ b) = fwords_l a ++ fwords_l b.
 Proof. unfold fwords_l. apply flat_map_app. Qed.
+Lemma fwords_l_cons f l : fwords_l (f :: l) = fwords f ++ fwords_l l.
+Proof. reflexivity. Qed.
+Lemma fwords_l_one f : fwords_l [f] = fwords f.
+Proof. unfold fwords_l. simpl. apply app_nil_r. Qed.
+Lemma fwords_set_kids st i y mt mb pt pb bt bb h fk ngc :
+  fwords (set_kids (FBlk st i y mt mb pt pb bt bb h fk) ngc) = fwords_l ngc.
+Proof. unfold set_kids. apply fwords_blk. Qed.
 Lemma fwords_frag_lines f : map fst (frag_lines f) = fwords f.
 Proof.
   revert f. fix IH 1. intros [w y h r o wd|st i y mt mb pt pb bt bb h kids]; [reflexivity|].
